@@ -71,4 +71,22 @@ CHECKS = {
         "required_classes": {"env-enlarges": 0.01, "both-accept": 0.2},
         "assumptions": COMMON_ASSUMPTIONS,
     },
+    "C08": {
+        "tests": [
+            {"name": "TestC08Exhaustive", "quick": 16, "thorough": 16, "rapid": False, "timeout": 3000,
+             "env": {"VERIF_C08_L": 6, "VERIF_C08_NAMINGS": "all", "VERIF_C08_L2": 5}, "env_thorough": {"VERIF_C08_L": 7, "VERIF_C08_L2": 6}},
+            {"name": "TestC08Random", "quick": 160000, "thorough": 3200000},
+        ],
+        "rule": "(a) EXHAUSTIVE: every string up to length L over the 19-symbol character-class alphabet {space, TAB, [ ] ( ) | . - = < > a b X Y 1 _ 0xC3} "
+                "(quick: L=6 for the naming 'a/--aa declared, b undeclared, X declared, Y undeclared' and L=5 for two further namings; thorough: L=7 and L=6) is given to "
+                "lexer.Tokenize + parser.Parse and to an independent recogniser (regex tokenizer + LL(1) parser written from the statement): same verdict; on success the token list "
+                "tiles the string (text, position, type of every token; every non-blank byte in exactly one token); on failure 0 <= Pos <= len and Pos within the offending token; "
+                "a 1/61 sample plus all strings of length <= 4 also go through the public API (Run panics with *lexer.ParseError before any hook); "
+                "(b) rapid: grammar-derived specs (valid by construction) with names undeclared at random, 1-2 byte/fragment edits, edited strings of a 303-string corpus extracted from the "
+                "repository's tests and docs, alphabet-biased byte strings, all through both routes. non-trivial = compiled with >= 3 tokens or rejected at a position > 0; "
+                "enumerated strings are distinct by construction, random ones by (string, declared names). The 'exhaustive' flag refers to part (a) up to the stated L only.",
+        "exhaustive": True,
+        "required_classes": {"verdict:compiled": 0.0005, "verdict:rejected": 0.0005, "exhaustive:compiled": 0.00001},
+        "assumptions": COMMON_ASSUMPTIONS + ["strings longer than L are only sampled (keyword OPTIONS, long names, annotations with blanks come from the rapid sources)"],
+    },
 }
